@@ -29,10 +29,12 @@ CHECKS = {
     },
     'C04': {
         'engine': 'obligations',
-        'technique': 'loop-carried flow-dependence scan over per-node loops (pinned-index analysis), who-may-call on eigendecompositions plus def-use of eigenvector selection, literal-index scan on connection-matrix axes',
-        'text': 'Three necessary conditions of equivariance on all 87 deterministic routines of the eight anchored modules: per-node loops have no flow dependence '
-                'between different nodes through an array updated in place; spectral sums use eigh and single eigenvectors are selected by the decomposition\'s '
-                'own eigenvalues; no integer literal indexes a node axis of a connection matrix.',
+        'technique': 'loop-carried flow-dependence scan over per-node loops (pinned-index analysis), early-exit scan of node loops, role-symmetry comparison in loops over unordered pairs, duplicate-position scan of fancy-index stores (coordinates of a two-output np.where used singly), who-may-call on eigendecompositions plus def-use of eigenvector selection, literal-index scan on connection-matrix axes, order-array obligations shared with C08',
+        'text': 'Necessary conditions of equivariance on all 87 deterministic routines of the eight anchored modules: per-node loops have no flow dependence '
+                'between different nodes through an array updated in place and are never left early (58 loops); loops over unordered pairs extract the same '
+                'quantities for both nodes; no store is indexed by one coordinate array of a two-output np.where alone (duplicate positions keep the last write); '
+                'spectral sums use eigh and single eigenvectors are selected by the decomposition\'s own eigenvalues; no integer literal indexes a node axis of a '
+                'connection matrix; the zero-initialised visiting-order arrays of the Brandes routines are completely overwritten before use.',
         'note': 'Equivariance itself (tie-breaking in argmax/argmin, rounding, algebraic identities) is NOT decided. The Floyd-Warshall k-loop is exempted by name '
                 'with a reason. gtom violates the first condition: KNOWN-FINDING (same loop as the MATLAB original).',
     },
@@ -48,12 +50,14 @@ CHECKS = {
     },
     'C12': {
         'engine': 'obligations',
-        'technique': 'statement-order and same-mask obligations in the Floyd-Warshall k-loop, slot-coverage of path retrieval, all-or-nothing update discipline of the navigation counters (AST templates + block order)',
-        'text': 'Floyd: improvement mask taken from the lengths before they are replaced; hops and next hops updated under that mask with the [i,k]/[k,j] operands; '
-                'initial hops/next hops; diagonals reset. retrieve_shortest_path: hops+1 slots, slot 0 = source, every later slot written once by following '
+        'technique': 'statement-order and same-mask obligations in the Floyd-Warshall k-loop, typestate obligations on the hop walk over the finished next-hop table (start, count, advance, stop on arrival, rounds), slot-coverage of path retrieval, all-or-nothing update discipline of the navigation counters (AST templates + block order)',
+        'text': 'Floyd: improvement mask taken from the lengths before they are replaced; next hops updated under that mask with the first hop towards k; '
+                'initial next hops; diagonals reset; hop counts obtained by walking the finished next-hop table (cursor starts at the row node towards the column '
+                'node, exactly the walking pairs get one hop and move per round, pairs leave on arrival, at least n-1 rounds, no other writes) so that the '
+                'hop table and the next-hop table agree by construction (a genuine rounding defect of the independent-table version was found by this rule and repaired). retrieve_shortest_path: hops+1 slots, slot 0 = source, every later slot written once by following '
                 'Pmat towards the same target, empty iff hops == 0. navigation_wu: next node is a neighbour nearest to the target; the three counters advance '
                 'with the same (current, next) pair or are all set to inf; results recorded together per pair; success-ratio formula.',
-        'note': 'That following Pmat reaches the target in the reported number of hops with the reported length is NOT decided (semantic fact about the algorithm).',
+        'note': 'That following Pmat reaches the target with the reported length is NOT decided (semantic fact about the algorithm; relies on positive lengths).',
     },
     'C15': {
         'engine': 'obligations + siblings',
@@ -61,7 +65,7 @@ CHECKS = {
         'text': 'kcore_bd, kcore_bu, score_wu: copy before the loop, argument untouched; degrees/strengths recomputed from the working copy as the first '
                 'statement of every iteration by the matching routine; peel set = {0 < d < bound}; rows and columns of exactly that set zeroed, nothing '
                 'else written; the loop ends only when the set is empty; size = #(d > 0) of the last vector; peel records once per iteration; the three '
-                'siblings agree. kcoreness: k ascends over range(N), core and kn[k] from one call, membership from the returned core (total degree for '
+                'siblings agree. kcoreness: k ascends over range(N) and the loop is left only when a core is empty, core and kn[k] from one call, membership from the returned core (total degree for '
                 'the directed variant), unguarded assignment.',
         'note': 'Maximality and nestedness follow from the fixed-point argument given these premises; that argument is cited, not mechanised.',
     },
@@ -70,7 +74,8 @@ CHECKS = {
         'technique': 'fill-pointer typestate of the visiting-order array, exhaustive relaxation-branch obligations, dependency-formula templates, per-source allocation (dominance in the source loop), feature agreement between sibling routines',
         'text': 'For the three Brandes-style routines: settled nodes are recorded by `Q[q] = v; q -= 1`, so the free slots after the search are Q[:q+1] and '
                 'must receive exactly the unreachable set before the dependency loop; strict improvement resets path count and predecessor row, ties add, '
-                'nothing else writes them; dependencies are propagated over Q[:n-1] with (1+DP[w]) NP[v]/NP[w], identical for node and edge '
+                'nothing else writes them; in the breadth-first routines the fill is guarded only by tests that hold whenever a slot is free; dependencies are '
+                'propagated over Q[:n-1] with (1+DP[w]) NP[v]/NP[w] to every predecessor unconditionally (no continue/break in the loop), identical for node and edge '
                 'accumulators; all per-source state is created inside the source loop; node part of edge_betweenness_wei equals betweenness_wei and the '
                 'binary/weighted edge routines agree; betweenness_bin keeps its sentinel order, recursion and column sum.',
         'note': 'That these bookkeeping facts yield the exact shortest-path fractions (Brandes\' theorem, tie handling by exact float equality) is cited, '
@@ -130,11 +135,13 @@ CHECKS = {
     },
     'C02': {
         'engine': 'labels + obligations',
-        'technique': 'label typestate dataflow (RAW/CANON/CANON+1/GAPPY) over the CFG; must-pass-through of q recomputation after label writes; AST templates for the modularity formulas incl. gamma factor of every null term; level-loop rebinding',
+        'technique': 'label typestate dataflow (RAW/CANON/CANON+1/GAPPY) over the CFG; must-pass-through of q recomputation after label writes; AST templates for the modularity formulas incl. gamma factor of every null term; level-loop rebinding; index-space product dataflow of the label composition; qtype scaling table (sympy) with CFG reaching definitions of the sign totals',
         'text': 'All ten detectors: returned labels have typestate canonical+1 at every return (valid 1..k partition for every input and seed); every '
                 'label write is followed on all paths by a recomputation of the returned q, whose aggregate is built from the canonical labels of the '
                 'same level; q has the definitional form with gamma on every degree-product term and out x in orientation; hierarchical outputs use '
-                'one index for labels and q; each level continues on the aggregated matrix.',
+                'one index for labels and q; each level continues on the aggregated matrix; label composition across levels stays in one index space and uses a '
+                'snapshot mask; for the four signed routines (d0, d1) equals the documented scaling of each qtype and is derived from the plain totals of '
+                'each sign (the substitution for an absent sign comes afterwards).',
         'note': 'Does not decide floating-point accuracy of q, nor that NumPy mask sums pool the right cells beyond the mask expressions being the '
                 'canonical label tests. modularity_louvain_dir never hands W1 to the next level: KNOWN-FINDING (repair blocked by pinned tests).',
     },
@@ -151,11 +158,12 @@ CHECKS = {
     },
     'C14': {
         'engine': 'labels',
-        'technique': 'label taint dataflow with an explicit list of label-safe uses; sympy check of the VI/MI formulas and their x<->y symmetry; index-kind rule',
+        'technique': 'label taint dataflow with an explicit list of label-safe uses; sympy check of the VI/MI formulas and their x<->y symmetry; index-kind rule; early-exit scan of loops over modules',
         'text': 'For the 18 partition parameters in scope: a raw label value can reach only label-safe operations before np.unique(..., return_inverse=True); '
                 'everything label-dependent runs on canonical labels, which are a function of the partition alone, hence invariance under every injective '
                 'relabelling. partition_distance: injective pairing of canonical labels, entropies on per-label histograms, VIn/MIn of the documented '
-                'form and symmetric. ci2ls/ls2ci structure.',
+                'form and symmetric. ci2ls/ls2ci structure. The 20 loops that enumerate modules are never left early (the order of canonical numbers is the one '
+                'label-dependent fact left after canonicalisation).',
         'note': 'Values of VI/MI and the [0,1] range are not decided. Two index-kind defects in gateway_coef_sign are KNOWN-FINDINGs (repair changes '
                 'values pinned by test_gateway_coef).',
     },
@@ -182,10 +190,11 @@ CHECKS = {
     },
     'C11': {
         'engine': 'swapkernel + obligations',
-        'technique': 'CFG dominance of precondition raises; flag-gating typestate; structural exits of the reachability loop; lattice guard compared (sympy normal form) with removed/created cost derived from the abstract swap; mask-tested facts on created cells',
+        'technique': 'CFG dominance of precondition raises; flag-gating typestate; structural exits of the reachability loop; lattice guard compared (sympy normal form) with removed/created cost derived from the abstract swap; mask-tested facts on created cells; set-up obligations of the connectivity search (visited mask, frontier expansion, accumulation)',
         'text': 'Preconditions of the undirected _connected routines dominate every draw and write; all matrix writes of the four _connected kernels are '
                 'gated by the veto flag, reset per attempt, cleared exactly on the stalled-frontier exit, the search loop has two exits and is skipped '
-                'only under the stated shortcut; the lattice guard equals old-cost >= new-cost for the cells the swap touches; cells created by '
+                'only under the stated shortcut; the visited mask blocks the tails of the removed edges for both frontiers from the start, each frontier expands along '
+                'the rows of its own members and the mask accumulates it; the lattice guard equals old-cost >= new-cost for the cells the swap touches; cells created by '
                 'randomize_graph_partial_und were tested zero in the mask.',
         'note': 'That the frontier expansion decides connectivity is a graph lemma not mechanised here: "output connected" is NOT claimed, only that '
                 'every accepted swap passed the test and the test cannot be bypassed. D (and the mask) are assumed symmetric for undirected routines.',
